@@ -423,3 +423,80 @@ pub fn t_join_half_unord<'a>(a: S<'a, KV>, b: S<'a, KV>) {
         .all_ticks()
         .embedded_output("out");
 }
+
+// ------------------------------------------------------------------ trusted assumptions (C32)
+// The inputs are cast to the weakest type each operator accepts (NoOrder and/or AtLeastOnce), so
+// the operator goes through its `assume_ordering_trusted` / `assume_retries_trusted` call site;
+// the driver then presents every admissible order / duplication of the batch.
+
+use hydro_lang::live_collections::stream::AtLeastOnce;
+
+pub fn u_max<'a>(a: S<'a, u32>) {
+    b1(a).1
+        .weaken_ordering::<NoOrder>()
+        .weaken_retries::<AtLeastOnce>()
+        .max()
+        .all_ticks()
+        .embedded_output("out");
+}
+
+pub fn u_min<'a>(a: S<'a, u32>) {
+    b1(a).1
+        .weaken_ordering::<NoOrder>()
+        .weaken_retries::<AtLeastOnce>()
+        .min()
+        .all_ticks()
+        .embedded_output("out");
+}
+
+pub fn u_count<'a>(a: S<'a, u32>) {
+    b1(a).1
+        .weaken_ordering::<NoOrder>()
+        .count()
+        .all_ticks()
+        .embedded_output("out");
+}
+
+pub fn u_first<'a>(a: S<'a, u32>) {
+    b1(a).1
+        .weaken_retries::<AtLeastOnce>()
+        .first()
+        .all_ticks()
+        .embedded_output("out");
+}
+
+pub fn u_last<'a>(a: S<'a, u32>) {
+    b1(a).1
+        .weaken_retries::<AtLeastOnce>()
+        .last()
+        .all_ticks()
+        .embedded_output("out");
+}
+
+pub fn u_is_empty<'a>(a: S<'a, u32>) {
+    b1(a).1
+        .weaken_ordering::<NoOrder>()
+        .is_empty()
+        .all_ticks()
+        .embedded_output("out");
+}
+
+pub fn u_value_counts<'a>(a: S<'a, KV>) {
+    b1(a).1
+        .into_keyed()
+        .weaken_ordering::<NoOrder>()
+        .value_counts()
+        .entries()
+        .all_ticks()
+        .assume_ordering::<TotalOrder>(nondet!(/** observation only */))
+        .embedded_output("out");
+}
+
+pub fn u_get_max_key<'a>(a: S<'a, KV>) {
+    b1(a).1
+        .into_keyed()
+        .reduce(q!(|acc, v| *acc = (*acc * 3 + v) % 1009))
+        .get_max_key()
+        .all_ticks()
+        .embedded_output("out");
+}
